@@ -390,6 +390,7 @@ func ruleRemoversUpdateTreeSummary(c *Ctx, rule string) {
 	a := c.A
 	c.R.Rule(c.R.Property+"."+rule+"a", 2, "OPTIONS * names the methods registered on live routes: every operation that removes handlers or nodes updates the tree-wide summary")
 	c.R.Rule(c.R.Property+"."+rule+"b", 1, "the tree-wide counters are decremented only by keys actually removed")
+	nB := 0
 	g := an.NewGraph(c.P)
 	removing := func(f *ssa.Function) (string, bool) {
 		desc := ""
@@ -522,6 +523,7 @@ func ruleRemoversUpdateTreeSummary(c *Ctx, rule string) {
 			if !ok || len(call.Args) < 3 {
 				return
 			}
+			nB++
 			num, isConst := call.Args[1].(*ssa.Const)
 			if isConst && num.Value != nil && num.Int64() >= 0 {
 				c.R.Add(rule+"b", c.fk(f), fmt.Sprintf("call:%s/num=%d", an.FuncKey(a.TreeSummaryBuilder), num.Int64()), c.pos(in), true, "increment or recount: the list is not a decrement list")
@@ -537,6 +539,9 @@ func ruleRemoversUpdateTreeSummary(c *Ctx, rule string) {
 			construct := fmt.Sprintf("call:%s/decrement/list=%s", an.FuncKey(a.TreeSummaryBuilder), t.String())
 			c.R.Add(rule+"b", c.fk(f), construct, c.pos(in), bad == "", ifelse(bad == "", "decrement list is derived from keys found present", "the tree-wide counters are decremented by the caller's list ("+bad+"), not by the keys actually removed: removing a method a route never had removes it from OPTIONS * although other routes serve it, and Remove(pattern) without methods decrements nothing"))
 		})
+	}
+	if nB == 0 {
+		c.R.Add(rule+"b", c.fk(a.TreeSummaryBuilder), "no-decrement-call", c.P.Pos(a.TreeSummaryBuilder.Pos()), true, "the tree-wide summary builder takes no (count, list) arguments: removals recount instead of decrementing")
 	}
 }
 
